@@ -7,6 +7,8 @@ operation must account exactly (as a signed multiset) for the change of the cont
 """
 from __future__ import annotations
 
+import functools
+import json
 import operator
 import sys
 from typing import List
@@ -118,9 +120,17 @@ _gc.collect()
 _gc.freeze()
 
 
+_GC_N = [0]
+
+
 def _gc_mark():
     """Called (untraced) at the start of every path: drop the previous path's cyclic garbage, then freeze
-    what is alive (search tree, solver state) so that the per-weakref collections only scan this path's objects."""
+    what is alive (search tree, solver state) so that the per-weakref collections only scan this path's objects.
+    Every 64th path everything is thawed and collected, otherwise the state spaces of finished paths (frozen
+    while alive, cyclic) would never be reclaimed."""
+    _GC_N[0] += 1
+    if _GC_N[0] % 64 == 0:
+        _gc.unfreeze()
     _gc.collect()
     _gc.freeze()
 
@@ -141,28 +151,47 @@ def pin_code(code, n):
     return lo
 
 
-def _space(doms):
-    n = 1
-    for _, vals in doms:
-        n *= len(vals)
-    return n
+def _pick(code, table_fn, *cfg):
+    """(index, input tuple) number ``code`` of the cached, deterministic input table of this slice."""
+    tbl = native(table_fn, *cfg)
+    c = pin_code(code, len(tbl))
+    return c, tbl[c]
 
 
-def _unrank(c, doms):
-    """Mixed-radix decoding of the input code into named arguments."""
-    out = {}
-    for name, vals in doms:
-        c, r = divmod(c, len(vals))
-        out[name] = vals[r]
+def _product(*doms):
+    out = [()]
+    for d in doms:
+        out = [t + (v,) for t in out for v in d]
     return out
-
-
-def _inputs(code, doms):
-    return _unrank(pin_code(code, _space(doms)), doms)
 
 
 def _opt(lo, hi, nozero=False):
     return [None] + [v for v in range(lo, hi + 1) if not (nozero and v == 0)]
+
+
+# Reporting cap: a defect family can make thousands of inputs of one slice fail, and each reported failure
+# costs one forked concrete replay.  After CAP failing paths with the same classify() key in the same slice,
+# further failing inputs *with that key* are abandoned as "precondition unmet" (never counted as passing);
+# failures with any other key are still reported.  Without a defect the cap is never reached.
+CAP = 2
+_SEEN = {}
+
+
+def _over_cap(hname, names, values, code):
+    fixed = dict(zip(names.split(), values))
+    args = dict(fixed)
+    args["code"] = code
+    key = (hname, json.dumps(fixed, sort_keys=True), classify(hname, args, {})[0])
+    _SEEN[key] = _SEEN.get(key, 0) + 1
+    return _SEEN[key] > CAP
+
+
+def _report(ok, hname, names, values, code):
+    if ok or not _tracing():
+        return ok
+    if native(_over_cap, hname, names, values, code):
+        assume(False)
+    return False
 
 
 def _run(fn, *args):
@@ -314,28 +343,29 @@ def _finish_list(p, coll, init, got_res, model, model_res, events=True):
     return same and _verdict(list(init), got, got, model, got_res, model_res, list(LEDGER), events)
 
 
-def d_list_point(op, n, hi):
-    doms = [("init%d" % j, [0, 1, 2]) for j in range(n)]
-    if op in ("append", "remove", "insert", "setitem"):
-        doms.append(("x", [0, 1, 2, 3]))
-    if op in ("insert", "setitem", "delitem", "pop"):
-        doms.append(("i", list(range(-hi, hi + 1))))
-    if op == "imul":
-        doms.append(("k", [-1, 0, 1, 2]))
-    return doms
+@functools.lru_cache(maxsize=None)
+def t_list_point(op, nsel, nmax, hi):
+    """(init, x, i, k)"""
+    out = []
+    xs = [0, 1, 2, 3] if op in ("append", "remove", "insert", "setitem") else [0]
+    is_ = list(range(-hi, hi + 1)) if op in ("insert", "setitem", "delitem", "pop") else [0]
+    ks = [-1, 0, 1, 2] if op == "imul" else [0]
+    for n in (range(nmax + 1) if nsel < 0 else [nsel]):
+        for init in _product(*[[0, 1, 2]] * n):
+            out += [(list(init), x, i, k) for x in xs for i in is_ for k in ks]
+    return out
 
 
-def h_list_point(op: str, n: int, hi: int, code: int) -> bool:
-    a = _inputs(code, d_list_point(op, n, hi))
-    init = [a["init%d" % j] for j in range(n)]
-    x, i, k = a.get("x", 0), a.get("i", 0), a.get("k", 0)
+def h_list_point(op: str, nsel: int, nmax: int, hi: int, code: int) -> bool:
+    c, (init, x, i, k) = _pick(code, t_list_point, op, nsel, nmax, hi)
     p, pool, coll = native(_setup, "list", init)
     res = _run(_list_point, coll, pool, op, x, i, k)
     model, model_res = native(_model_list_point, init, op, x, i, k)
     # `*=` with k >= 1: deliberately not instrumented (source comment: "all members of the collection
     # are already present, so no need to fire appends"); contents still compared.
     events = not (op == "imul" and k >= 1)
-    return native(_finish_list, p, coll, init, _norm_res(res, coll), model, model_res, events)
+    ok = native(_finish_list, p, coll, init, _norm_res(res, coll), model, model_res, events)
+    return _report(ok, "list_point", "op nsel nmax hi", (op, nsel, nmax, hi,), c)
 
 
 LIST_SEQ_OPS = ["extend", "iadd"]
@@ -357,24 +387,40 @@ def _model_list_seq(init, op, rk, rhs):
     return m, _norm_res(res, m)
 
 
-def d_list_seq(n, m):
-    return [("init%d" % j, [0, 1, 2]) for j in range(n)] + [("rhs%d" % j, [0, 1, 2, 3]) for j in range(m)]
+@functools.lru_cache(maxsize=None)
+def t_list_seq(nmax, mmax):
+    """(init, rhs)"""
+    out = []
+    for n in range(nmax + 1):
+        for m in range(mmax + 1):
+            out += [(list(a), list(b)) for a in _product(*[[0, 1, 2]] * n) for b in _product(*[[0, 1, 2, 3]] * m)]
+    return out
 
 
-def h_list_seq(op: str, rk: str, n: int, m: int, code: int) -> bool:
-    a = _inputs(code, d_list_seq(n, m))
-    init = [a["init%d" % j] for j in range(n)]
-    rhs = [a["rhs%d" % j] for j in range(m)]
+def h_list_seq(op: str, rk: str, nmax: int, mmax: int, code: int) -> bool:
+    c, (init, rhs) = _pick(code, t_list_seq, nmax, mmax)
     p, pool, coll = native(_setup, "list", init)
     res = _run(_list_seq, coll, pool, op, rk, rhs)
     model, model_res = native(_model_list_seq, init, op, rk, rhs)
-    return native(_finish_list, p, coll, init, _norm_res(res, coll), model, model_res)
+    ok = native(_finish_list, p, coll, init, _norm_res(res, coll), model, model_res)
+    return _report(ok, "list_seq", "op rk nmax mmax", (op, rk, nmax, mmax,), c)
 
 
-# slices.  init / rhs come from concrete patterns, start/stop/step are the symbolic part.
+# slices.  The input space is partitioned into three regions of the slice arguments:
+#   "in"  : step None or > 0, start/stop None or within -len..len
+#   "oob" : step None or > 0, some bound outside -len..len
+#   "neg" : step < 0
+REGIONS = ["in", "oob", "neg"]
+# variant -> (kind of the right-hand side, initial members, right-hand-side members)
+VARIANTS = {
+    "primary": ("list", "distinct", "fresh"),
+    "tuple": ("tuple", "distinct", "fresh"),
+    "iter": ("iter", "distinct", "fresh"),
+    "self": ("self", "distinct", "fresh"),
+    "existing": ("list", "distinct", "existing"),  # members already in the collection, other order
+    "dup": ("list", "dup", "dupfresh"),  # duplicates in the collection and in the right-hand side
+}
 INIT_PATS = {"distinct": [0, 1, 2, 3], "dup": [0, 0, 1, 0]}
-# rhs patterns: fresh children, children already in the collection (reversed order), one fresh child repeated
-RHS_PATS = ["fresh", "existing", "dupfresh"]
 
 
 def _slice_inputs(n, m, ipat, rpat):
@@ -382,10 +428,32 @@ def _slice_inputs(n, m, ipat, rpat):
     if rpat == "fresh":
         rhs = [4, 5, 6][:m]
     elif rpat == "existing":
-        rhs = [([2, 1, 0, 3][j]) % max(n, 1) if n else 4 + j for j in range(m)]
+        rhs = [[2, 1, 0, 3][j] % n if n else 4 + j for j in range(m)]
     else:
         rhs = [4] * m
     return init, rhs
+
+
+def _region(n, start, stop, step):
+    if step is not None and step < 0:
+        return "neg"
+    for b in (start, stop):
+        if b is not None and (b < -n or b > n):
+            return "oob"
+    return "in"
+
+
+@functools.lru_cache(maxsize=None)
+def t_slices(reg, ns, ms, margin, hi, smax):
+    """(n, m, start, stop, step); bounds range over -(n+margin)..(n+margin) if margin else -hi..hi."""
+    out = []
+    for n in ns:
+        b = n + margin if margin else hi
+        for m in ms:
+            for start, stop, step in _product(_opt(-b, b), _opt(-b, b), _opt(-smax, smax, nozero=True)):
+                if _region(n, start, stop, step) == reg:
+                    out.append((n, m, start, stop, step))
+    return out
 
 
 def _list_setslice(c, pool, rk, rhs, start, stop, step):
@@ -398,18 +466,19 @@ def _model_list_setslice(init, rk, rhs, start, stop, step):
     return m, _norm_res(res, m)
 
 
-def d_slice(lo, hi, smax):
-    return [("start", _opt(lo, hi)), ("stop", _opt(lo, hi)), ("step", _opt(-smax, smax, nozero=True))]
-
-
-def h_list_setslice(n: int, m: int, ipat: str, rpat: str, rk: str, lo: int, hi: int, smax: int, code: int) -> bool:
-    a = _inputs(code, d_slice(lo, hi, smax))
-    start, stop, step = a["start"], a["stop"], a["step"]
+def h_list_setslice(reg: str, variant: str, ns: str, ms: str, margin: int, hi: int, smax: int, code: int) -> bool:
+    c, (n, m, start, stop, step) = _pick(code, t_slices, reg, _ints(ns), _ints(ms), margin, hi, smax)
+    rk, ipat, rpat = VARIANTS[variant]
     init, rhs = _slice_inputs(n, m, ipat, rpat)
     p, pool, coll = native(_setup, "list", init)
     res = _run(_list_setslice, coll, pool, rk, rhs, start, stop, step)
     model, model_res = native(_model_list_setslice, init, rk, rhs, start, stop, step)
-    return native(_finish_list, p, coll, init, _norm_res(res, coll), model, model_res)
+    ok = native(_finish_list, p, coll, init, _norm_res(res, coll), model, model_res)
+    return _report(ok, "list_setslice", "reg variant ns ms margin hi smax", (reg, variant, ns, ms, margin, hi, smax,), c)
+
+
+def _ints(s):
+    return tuple(int(x) for x in s.split(",") if x != "")
 
 
 def _list_delslice(c, start, stop, step):
@@ -422,14 +491,14 @@ def _model_list_delslice(init, start, stop, step):
     return m, _norm_res(res, m)
 
 
-def h_list_delslice(n: int, ipat: str, lo: int, hi: int, smax: int, code: int) -> bool:
-    a = _inputs(code, d_slice(lo, hi, smax))
-    start, stop, step = a["start"], a["stop"], a["step"]
+def h_list_delslice(reg: str, ipat: str, ns: str, margin: int, hi: int, smax: int, code: int) -> bool:
+    c, (n, _m, start, stop, step) = _pick(code, t_slices, reg, _ints(ns), (0,), margin, hi, smax)
     init = INIT_PATS[ipat][:n]
     p, pool, coll = native(_setup, "list", init)
     res = _run(_list_delslice, coll, start, stop, step)
     model, model_res = native(_model_list_delslice, init, start, stop, step)
-    return native(_finish_list, p, coll, init, _norm_res(res, coll), model, model_res)
+    ok = native(_finish_list, p, coll, init, _norm_res(res, coll), model, model_res)
+    return _report(ok, "list_delslice", "reg ipat ns margin hi smax", (reg, ipat, ns, margin, hi, smax,), c)
 
 
 # ------------------------------------------------------------------------------------------
@@ -511,28 +580,26 @@ def _finish_set(p, coll, init, op, got_res, model, model_res):
     return _verdict(list(init), got, got, model, got_res, model_res, list(LEDGER))
 
 
-def d_set(op, nargs, npool):
+@functools.lru_cache(maxsize=None)
+def t_set(op, nargs, npool):
+    """(a, x, b, b2, nargs): bit masks over the pool; nargs < 0 = the builtin's *others signature with 0 and 2 arguments"""
     masks = list(range(1 << npool))
-    doms = [("a", masks)]
-    if op in ("add", "discard", "remove"):
-        doms.append(("x", list(range(npool))))
-    if op in SET_BULK_OPS and nargs >= 1:
-        doms.append(("b", masks))
-    if op in SET_BULK_OPS and nargs >= 2:
-        doms.append(("b2", masks))
-    return doms
+    if op in SET_ELEM_OPS:
+        xs = list(range(npool)) if op in ("add", "discard", "remove") else [0]
+        return [(a, x, 0, 0, 0) for a in masks for x in xs]
+    if nargs < 0:
+        return [(a, 0, 0, 0, 0) for a in masks] + [(a, 0, b, b2, 2) for a in masks for b in masks for b2 in masks]
+    return [(a, 0, b, 0, 1) for a in masks for b in masks]
 
 
 def h_set(op: str, ak: str, nargs: int, npool: int, code: int) -> bool:
-    a = _inputs(code, d_set(op, nargs, npool))
-    init = _bits(a["a"], npool)
-    x = a.get("x", 0)
-    bl = _bits(a.get("b", 0), npool)
-    b2l = _bits(a.get("b2", 0), npool)
+    c, (a, x, b, b2, na) = _pick(code, t_set, op, nargs, npool)
+    init, bl, b2l = _bits(a, npool), _bits(b, npool), _bits(b2, npool)
     p, pool, coll = native(_setup, "set", init)
-    res = _run(_set_op, coll, pool, op, ak, x, bl, b2l, nargs)
-    model, model_res = native(_model_set, init, op, ak, x, bl, b2l, nargs)
-    return native(_finish_set, p, coll, init, op, _norm_res(res, coll), model, model_res)
+    res = _run(_set_op, coll, pool, op, ak, x, bl, b2l, na)
+    model, model_res = native(_model_set, init, op, ak, x, bl, b2l, na)
+    ok = native(_finish_set, p, coll, init, op, _norm_res(res, coll), model, model_res)
+    return _report(ok, "set", "op ak nargs npool", (op, ak, nargs, npool,), c)
 
 
 # ------------------------------------------------------------------------------------------
@@ -622,23 +689,19 @@ def _finish_dict(p, coll, init, got_res, model, model_res):
     return _verdict(list(init), [v for _, v in got], got, model, got_res, model_res, list(LEDGER))
 
 
-def d_dict(op, nk, nv):
-    vals = list(range(-1, nv))  # -1 = key absent, else the pool index stored under key "k<j>"
-    doms = [("present%d" % j, vals) for j in range(nk)]
-    if op in DICT_ONEKEY:
-        doms.append(("key", list(range(nk))))
-    if op in ("setitem", "pop_default", "setdefault", "keyed_set", "keyed_remove"):
-        doms.append(("x", list(range(nv))))
-    if op in DICT_BULK:
-        doms += [("other%d" % j, vals) for j in range(nk)]
-    return doms
+@functools.lru_cache(maxsize=None)
+def t_dict(op, nk, nv, revs):
+    """(present, other, key, x, rev): present[j]/other[j] = pool index stored under key "k<j>", -1 = absent"""
+    vals = list(range(-1, nv))
+    keys = list(range(nk)) if op in DICT_ONEKEY else [0]
+    xs = list(range(nv)) if op in ("setitem", "pop_default", "setdefault", "keyed_set", "keyed_remove") else [0]
+    others = _product(*[vals] * nk) if op in DICT_BULK else [(-1,) * nk]
+    return [(list(pr), list(ov), key, x, rev) for rev in ((False, True) if revs else (False,))
+            for pr in _product(*[vals] * nk) for ov in others for key in keys for x in xs]
 
 
-def h_dict(kind: str, op: str, nk: int, nv: int, rev: bool, code: int) -> bool:
-    a = _inputs(code, d_dict(op, nk, nv))
-    present = [a["present%d" % j] for j in range(nk)]
-    ov = [a.get("other%d" % j, -1) for j in range(nk)]
-    key, x = a.get("key", 0), a.get("x", 0)
+def h_dict(kind: str, op: str, nk: int, nv: int, revs: bool, code: int) -> bool:
+    c, (present, ov, key, x, rev) = _pick(code, t_dict, op, nk, nv, revs)
     order = list(range(nk))
     if rev:
         order.reverse()
@@ -649,7 +712,8 @@ def h_dict(kind: str, op: str, nk: int, nv: int, rev: bool, code: int) -> bool:
     p, pool, coll = native(_setup, kind, init, keys)
     res = _run(_dict_op, coll, pool, kind, op, "k%d" % key, x, okeys, ovals)
     model, model_res = native(_model_dict, kind, keys, init, op, "k%d" % key, x, okeys, ovals)
-    return native(_finish_dict, p, coll, init, _norm_res(res, coll), model, model_res)
+    ok = native(_finish_dict, p, coll, init, _norm_res(res, coll), model, model_res)
+    return _report(ok, "dict", "kind op nk nv revs", (kind, op, nk, nv, revs,), c)
 
 
 # ------------------------------------------------------------------------------------------
@@ -687,20 +751,25 @@ def _finish_assign(kind, p, old, init, new, got_res):
     return _ledger_net(list(LEDGER)) == _signed(list(init), got)
 
 
-def d_assign(npool, nnew):
-    return [("a", list(range(1 << npool)))] + [("new%d" % j, list(range(npool))) for j in range(nnew)]
+@functools.lru_cache(maxsize=None)
+def t_assign(npool, nmax):
+    """(a, new): old members as a bit mask, new members as a duplicate-free sequence (bulk_replace works on
+    identity sets; see META.outside)"""
+    out = []
+    for a in range(1 << npool):
+        for nn in range(nmax + 1):
+            out += [(a, list(t)) for t in _product(*[list(range(npool))] * nn) if len(set(t)) == len(t)]
+    return out
 
 
-def h_assign(kind: str, npool: int, nnew: int, code: int) -> bool:
-    a = _inputs(code, d_assign(npool, nnew))
-    new = [a["new%d" % j] for j in range(nnew)]
-    # distinct members only (bulk_replace works on identity sets; see META.outside)
-    assume(len(set(new)) == len(new))
-    init = _bits(a["a"], npool)
+def h_assign(kind: str, npool: int, nmax: int, code: int) -> bool:
+    c, (a, new) = _pick(code, t_assign, npool, nmax)
+    init = _bits(a, npool)
     keys = ["k%d" % i for i in init]
     p, pool, coll = native(_setup, kind, init, keys)
     res = _run(_assign, kind, p, pool, new)
-    return native(_finish_assign, kind, p, coll, init, new, _norm_res(res, coll))
+    ok = native(_finish_assign, kind, p, coll, init, new, _norm_res(res, coll))
+    return _report(ok, "assign", "kind npool nmax", (kind, npool, nmax,), c)
 
 
 # ------------------------------------------------------------------------------------------
@@ -710,9 +779,10 @@ META = {
                    "mapped_collection) collections on real relationship() attributes of transient parents; every "
                    "mutator is applied to the instrumented collection and to a builtin list/set/dict copy; contents, "
                    "return value and exception type must agree and the append/remove attribute events must equal "
-                   "the signed multiset difference of the contents. Indices, slice start/stop/step, element choices "
-                   "and set/dict contents are solver-chosen (case-split by z3-decided equalities, one path per value "
-                   "because list/set/dict are C containers that realise their arguments).",
+                   "the signed multiset difference of the contents. Each slice has a deterministic table of input "
+                   "tuples (members, indices, slice start/stop/step, argument contents); the symbolic input is the "
+                   "table index, case-split by z3-decided comparisons: one path per input tuple, because "
+                   "list/set/dict are C containers that realise every argument anyway.",
     "functions": [
         "orm.collections._list_decorators.{append,remove,insert,__setitem__,__delitem__,extend,__iadd__,pop,clear}",
         "orm.collections._set_decorators.{add,discard,remove,pop,clear,update,__ior__,difference_update,__isub__,"
@@ -726,7 +796,7 @@ META = {
     ],
     "bounds": {
         "quick": {"list size": "0..3 (members from a pool, duplicates allowed)", "index": "-5..5",
-                  "slice start/stop": "None, -5..5", "slice step": "None, -2..2 (!=0)", "RHS length": "0..3",
+                  "slice start/stop": "None, -(len+2)..len+2", "slice step": "None, -2..2 (!=0)", "RHS length": "0..3",
                   "RHS kinds": "list, tuple, iterator, generator, the collection itself, non-iterable",
                   "set": "all subsets of a 3-member pool x all subsets as argument; argument kinds " + ", ".join(SET_ARG_KINDS),
                   "dict": "keys k0..k2, values from a 2-member pool, both insertion orders; 3 keyed-dict flavours"},
@@ -746,7 +816,9 @@ META = {
     "stubs": [],
     "assumptions": ["children compare by identity (default object equality), like the int pool indices of the model",
                     "list/set/dict are C containers: symbolic indices are realised value by value; the solver "
-                    "enumerates the bounded domain (one path per value)"],
+                    "enumerates the bounded domain (one path per input tuple)",
+                    "reporting cap: after %d failing inputs with the same defect key in one slice, further failing inputs "
+                    "with that key are abandoned (counted as precondition-unmet, never as passing)" % CAP],
 }
 
 
@@ -755,90 +827,104 @@ def harnesses(tier: str) -> List[Harness]:
     hs: List[Harness] = []
     nmax = 3 if q else 4
     hi = 5 if q else 6
-    smax = 2 if q else 6
-    bq = (lambda quick_s, thorough_s: quick_s if q else thorough_s)
-    hs.append(Harness("list_point", h_list_point,
-                      [dict(op=o, n=n, hi=hi) for o in LIST_POINT_OPS for n in range(nmax + 1)], budget_s=bq(60, 400)))
+    B = 120 if q else 900
+    allns = ",".join(str(n) for n in range(nmax + 1))
+    # list: single-element / index operations
+    lp = []
+    for o in LIST_POINT_OPS:
+        if o in ("insert", "setitem"):
+            lp += [dict(op=o, nsel=n, nmax=nmax, hi=hi) for n in range(nmax + 1)]
+        else:
+            lp.append(dict(op=o, nsel=-1, nmax=nmax, hi=hi))
+    hs.append(Harness("list_point", h_list_point, lp, budget_s=B))
     hs.append(Harness("list_seq", h_list_seq,
-                      [dict(op=o, rk=rk, n=n, m=m) for o in LIST_SEQ_OPS for rk in RHS_KINDS
-                       for n in range(0, (2 if q else 3) + 1) for m in range(0, (3 if rk in ("list", "iter") else 1) + 1)
-                       if not (rk in ("int", "none") and m > 0)],
-                      budget_s=bq(60, 400)))
+                      [dict(op=o, rk=rk, nmax=(2 if q else 3), mmax={"list": 3, "iter": 3, "tuple": 1, "gen": 1}.get(rk, 0))
+                       for o in LIST_SEQ_OPS for rk in RHS_KINDS], budget_s=B))
+    # slice assignment
+    margin, shi, smax = (2, 0, 2) if q else (0, 6, 6)
     ss = []
-    for n in range(nmax + 1):
-        for m in range(4):
-            ss.append(dict(n=n, m=m, ipat="distinct", rpat="fresh", rk="list", lo=-hi, hi=hi, smax=smax))
-    # secondary axes on a narrower index range
-    lo2, hi2 = (-4, 4) if q else (-5, 5)
-    for n in ((2, 3) if q else (1, 2, 3, 4)):
-        for m in ((1, 2) if q else (0, 1, 2, 3)):
-            for rk in ("iter", "tuple", "self") if not q else ("iter", "self"):
-                ss.append(dict(n=n, m=m, ipat="distinct", rpat="fresh", rk=rk, lo=lo2, hi=hi2, smax=2))
-            ss.append(dict(n=n, m=m, ipat="distinct", rpat="existing", rk="list", lo=lo2, hi=hi2, smax=2))
-            ss.append(dict(n=n, m=m, ipat="dup", rpat="dupfresh", rk="list", lo=lo2, hi=hi2, smax=2))
-    hs.append(Harness("list_setslice", h_list_setslice, ss, budget_s=bq(90, 600)))
-    ds = [dict(n=n, ipat="distinct", lo=-hi, hi=hi, smax=smax) for n in range(nmax + 1)]
-    ds += [dict(n=n, ipat="dup", lo=lo2, hi=hi2, smax=2) for n in (2, 3, nmax)]
-    hs.append(Harness("list_delslice", h_list_delslice, ds, budget_s=bq(90, 600)))
+    for reg in REGIONS:
+        if reg == "in" or not q:
+            ss += [dict(reg=reg, variant="primary", ns=str(n), ms="0,1,2,3", margin=margin, hi=shi, smax=smax) for n in range(nmax + 1)]
+        else:
+            ss.append(dict(reg=reg, variant="primary", ns=allns, ms="0,1,2,3", margin=margin, hi=shi, smax=smax))
+        for v in ("tuple", "iter", "self", "existing", "dup"):
+            ms = "0" if v == "self" else ("1,2" if q else "0,1,2,3")
+            if q:
+                ss.append(dict(reg=reg, variant=v, ns="2,3", ms=ms, margin=1, hi=0, smax=2))
+            else:
+                ss += [dict(reg=reg, variant=v, ns=str(n), ms=ms, margin=2, hi=0, smax=2) for n in (1, 2, 3, 4)]
+    hs.append(Harness("list_setslice", h_list_setslice, ss, budget_s=B + 30))
+    ds = []
+    for reg in REGIONS:
+        if q:
+            ds.append(dict(reg=reg, ipat="distinct", ns=allns, margin=margin, hi=shi, smax=smax))
+        else:
+            ds += [dict(reg=reg, ipat="distinct", ns=str(n), margin=margin, hi=shi, smax=smax) for n in range(nmax + 1)]
+        ds.append(dict(reg=reg, ipat="dup", ns=("2,3" if q else "2,3,4"), margin=1, hi=0, smax=2))
+    hs.append(Harness("list_delslice", h_list_delslice, ds, budget_s=B))
+    # set
     npool = 3 if q else 4
     sl = [dict(op=o, ak="set", nargs=0, npool=npool) for o in SET_ELEM_OPS]
-    for o in SET_BULK_OPS:
-        for ak in SET_ARG_KINDS:
-            sl.append(dict(op=o, ak=ak, nargs=1, npool=npool))
-    for o in SET_NARGS_OPS:
-        sl.append(dict(op=o, ak="set", nargs=0, npool=npool))
-        sl.append(dict(op=o, ak="set", nargs=2, npool=3))
-    hs.append(Harness("set", h_set, sl, budget_s=bq(60, 400)))
+    sl += [dict(op=o, ak=ak, nargs=1, npool=npool) for o in SET_BULK_OPS for ak in SET_ARG_KINDS]
+    sl += [dict(op=o, ak="set", nargs=-1, npool=3) for o in SET_NARGS_OPS]
+    hs.append(Harness("set", h_set, sl, budget_s=B))
+    # keyed dicts: the decorators are shared by the three flavours, the widest bounds go to one of them
     dl = []
     for kind in DICT_KINDS:
         main = kind == "attr_dict"
         for o in DICT_OPS:
             bulk = o in DICT_BULK
-            # the decorators are shared by the three keyed-dict flavours: the widest bounds go to one flavour
             nk = 3 if (main or not bulk) else 2
-            nv = (2 if q else 3) if (main or not bulk) else 2
-            for rev in (False, True):
-                if rev and not (main and o in ("popitem", "update_dict", "clear", "ior")):
-                    continue
-                dl.append(dict(kind=kind, op=o, nk=nk, nv=nv, rev=rev))
-    hs.append(Harness("dict", h_dict, dl, budget_s=bq(60, 400)))
-    al = [dict(kind=k, npool=3, nnew=nn) for k in ("list", "set", "attr_dict") for nn in range(0, 4)]
-    hs.append(Harness("assign", h_assign, al, budget_s=bq(60, 400)))
+            nv = (2 if q else 3) if main else 2
+            dl.append(dict(kind=kind, op=o, nk=nk, nv=nv, revs=bool(main and o in ("popitem", "update_dict", "clear", "ior"))))
+    hs.append(Harness("dict", h_dict, dl, budget_s=B))
+    hs.append(Harness("assign", h_assign, [dict(kind=k, npool=3, nmax=3) for k in ("list", "set", "attr_dict")], budget_s=B))
     return hs
 
 
 def decode(hname, args):
-    """The named inputs encoded by ``code`` for a given slice (used by classify and for reading replays)."""
+    """The named inputs behind ``code`` for a given slice (used by classify and for reading replays)."""
     c = args["code"]
     if hname == "list_point":
-        return _unrank(c, d_list_point(args["op"], args["n"], args["hi"]))
+        init, x, i, k = t_list_point(args["op"], args["nsel"], args["nmax"], args["hi"])[c]
+        return dict(members=init, x=x, i=i, k=k)
     if hname == "list_seq":
-        return _unrank(c, d_list_seq(args["n"], args["m"]))
-    if hname in ("list_setslice", "list_delslice"):
-        return _unrank(c, d_slice(args["lo"], args["hi"], args["smax"]))
+        init, rhs = t_list_seq(args["nmax"], args["mmax"])[c]
+        return dict(members=init, rhs=rhs)
+    if hname == "list_setslice":
+        n, m, start, stop, step = t_slices(args["reg"], _ints(args["ns"]), _ints(args["ms"]), args["margin"], args["hi"], args["smax"])[c]
+        rk, ipat, rpat = VARIANTS[args["variant"]]
+        init, rhs = _slice_inputs(n, m, ipat, rpat)
+        return dict(n=n, m=m, start=start, stop=stop, step=step, rk=rk, members=init, rhs=("<the collection>" if rk == "self" else rhs))
+    if hname == "list_delslice":
+        n, _m, start, stop, step = t_slices(args["reg"], _ints(args["ns"]), (0,), args["margin"], args["hi"], args["smax"])[c]
+        return dict(n=n, start=start, stop=stop, step=step, members=INIT_PATS[args["ipat"]][:n])
     if hname == "set":
-        return _unrank(c, d_set(args["op"], args["nargs"], args["npool"]))
+        a, x, b, b2, na = t_set(args["op"], args["nargs"], args["npool"])[c]
+        np_ = args["npool"]
+        return dict(members=_bits(a, np_), x=x, arg=_bits(b, np_), arg2=_bits(b2, np_), nargs=na)
     if hname == "dict":
-        return _unrank(c, d_dict(args["op"], args["nk"], args["nv"]))
+        present, ov, key, x, rev = t_dict(args["op"], args["nk"], args["nv"], args["revs"])[c]
+        return dict(present=present, other=ov, key="k%d" % key, x=x, reversed_insertion=rev)
     if hname == "assign":
-        return _unrank(c, d_assign(args["npool"], args["nnew"]))
+        a, new = t_assign(args["npool"], args["nmax"])[c]
+        return dict(members=_bits(a, args["npool"]), new=new)
     raise AssertionError(hname)
 
 
 def _slice_feature(n, start, stop, step, rk):
     st = 1 if step is None else step
     if rk == "self":
-        return "rhs-is-self"
+        return "rhs-is-the-collection"
     if st < 0:
         return "negative-step"
-    oob_neg = (start is not None and start < -n) or (stop is not None and stop < -n)
+    below = (start is not None and start < -n) or (stop is not None and stop < -n)
     if st == 1:
-        if oob_neg:
-            return "step1:bound-below-minus-len"
-        return "step1:other"
-    if rk in ("iter", "gen"):
+        return "step1:bound-below-minus-len" if below else "step1:other"
+    if rk == "iter":
         return "extended:rhs-without-len"
-    if oob_neg:
+    if below:
         return "extended:bound-below-minus-len"
     if (stop is not None and stop > n) or (start is not None and start > n):
         return "extended:bound-above-len"
@@ -851,34 +937,34 @@ def classify(hname, args, rep):
     if exc:
         return ("C38:%s:harness-exception" % hname, "%s raised %s on %s %s" % (hname, exc, args, d))
     if hname == "list_setslice":
-        feat = _slice_feature(args["n"], d["start"], d["stop"], d["step"], args["rk"])
+        feat = _slice_feature(d["n"], d["start"], d["stop"], d["step"], d["rk"])
         return ("C38:list.__setitem__:slice:" + feat,
                 "InstrumentedList slice assignment differs from list (contents, exception type or events): "
-                "len=%s coll[%s:%s:%s] = <%s of %s %s items> (%s)"
-                % (args["n"], d["start"], d["stop"], d["step"], args["rk"], args["m"], args["rpat"], feat))
+                "members=%s coll[%s:%s:%s] = %s(%s) [%s]" % (d["members"], d["start"], d["stop"], d["step"], d["rk"], d["rhs"], feat))
     if hname == "list_delslice":
         return ("C38:list.__delitem__:slice:%s" % ("negative-step" if (d["step"] or 1) < 0 else "positive-step"),
-                "InstrumentedList slice deletion differs from list: len=%s del coll[%s:%s:%s]"
-                % (args["n"], d["start"], d["stop"], d["step"]))
+                "InstrumentedList slice deletion differs from list: members=%s del coll[%s:%s:%s]"
+                % (d["members"], d["start"], d["stop"], d["step"]))
     if hname == "list_point":
         op = args["op"]
-        init = [d["init%d" % j] for j in range(args["n"])]
-        if op == "remove" and d["x"] not in init:
+        if op == "remove" and d["x"] not in d["members"]:
             return ("C38:list.remove:absent-item-fires-remove-event",
                     "InstrumentedList.remove(x) with x not in the list fires a 'remove' event before raising "
-                    "ValueError: members=%s x=%s" % (init, d["x"]))
+                    "ValueError: members=%s x=%s" % (d["members"], d["x"]))
         if op == "imul":
-            feat = "k<=0-empties-without-remove-events" if d["k"] <= 0 else "k=%s" % d["k"]
-            return ("C38:list.__imul__:" + feat, "coll *= %s on members %s: no remove events although the list is emptied" % (d["k"], init))
-        return ("C38:list.%s" % op, "InstrumentedList.%s differs from list: members=%s %s" % (op, init, d))
+            if d["k"] <= 0:
+                return ("C38:list.__imul__:k<=0-empties-without-remove-events",
+                        "coll *= %s on members %s empties the list without remove events" % (d["k"], d["members"]))
+            return ("C38:list.__imul__:k=%s" % d["k"], "coll *= %s on members %s differs from list" % (d["k"], d["members"]))
+        return ("C38:list.%s" % op, "InstrumentedList.%s differs from list: %s" % (op, d))
     if hname == "list_seq":
         return ("C38:list.%s:rhs=%s" % (args["op"], args["rk"]), "InstrumentedList.%s(<%s>) differs from list: %s"
                 % (args["op"], args["rk"], d))
     if hname == "set":
         op = args["op"]
-        if op in SET_NARGS_OPS and args["nargs"] != 1:
+        if d["nargs"] != 1 and op in SET_NARGS_OPS:
             return ("C38:set.%s:nargs!=1" % op,
-                    "InstrumentedSet.%s() called with %s arguments raises TypeError; set.%s accepts *others" % (op, args["nargs"], op))
+                    "InstrumentedSet.%s() called with %s arguments raises TypeError; set.%s accepts *others" % (op, d["nargs"], op))
         return ("C38:set.%s:%s" % (op, args["ak"]), "InstrumentedSet.%s(<%s>) differs from set: %s" % (op, args["ak"], d))
     if hname == "dict":
         op = args["op"]
